@@ -54,6 +54,14 @@ def run_session(sess):
                         scales[op["id"]] = Scale(list(op["semis"]))
                     else:
                         scales[op["id"]] = Scale(list(op["semis"]), octave_size=op["osize"])
+                elif how == "weighted":       # a WeightedScale under a name (possibly one that is registered already)
+                    n = len(op["semis"])
+                    scales[op["id"]] = iso.WeightedScale(list(op["semis"]), [1.0 / n] * n, op["name"], octave_size=op["osize"])
+                elif how == "weighted-unnamed":   # the default name of a WeightedScale is "major"
+                    n = len(op["semis"])
+                    scales[op["id"]] = iso.WeightedScale(list(op["semis"]), [1.0 / n] * n)
+                elif how == "fromnotes":
+                    scales[op["id"]] = Scale.fromnotes(list(op["semis"]), name=op["name"], octave_size=op["osize"])
                 else:                         # "named" (a name shared by several scales) / "registered" (a name of its own)
                     scales[op["id"]] = Scale(list(op["semis"]), op["name"], octave_size=op["osize"])
                 return None
